@@ -379,6 +379,13 @@ def c06(ctx, rep):
     stream_open_rule(ctx, rep, "C06")
     from .checks_pipe import independent_wiring
     independent_wiring(ctx, rep, "C06", only=("anonymizer4", "anonymizer6"))
+    # "every address is replaced": the only tokens left alone are the ones the gate names (masks, listed networks), decided exactly;
+    # the image printed is the function's image (host bits per family as given); the text written is the processed text, never a copy of the input
+    from .checks_ip import _gate_content, c04 as _c04
+    _gate_content(ctx, IpModel(ctx), rep, "C06")
+    from .checks_pipe import import_clauses, c16 as _c16
+    import_clauses(ctx, rep, "C06", "C04", _c04, ("C04.suffix-default", "C04.suffix-field"))
+    import_clauses(ctx, rep, "C06", "C16", _c16, ("C16.single-file-streams", "C16.writes-only-output"))
 
 
 # ----------------------------------------------------------------------
@@ -438,6 +445,8 @@ def c11(ctx, rep):
     independent_wiring(ctx, rep, "C11", only=("anonymizer_as_num",))
     from .checks_ip import option_spec_rule
     option_spec_rule(ctx, rep, "C11", only=("--as-numbers",))
+    from .checks_pipe import import_clauses, c19 as _c19
+    import_clauses(ctx, rep, "C11", "C19", _c19, ("C19.list-options",))  # "equal to a listed AS number": the list reaches the anonymizer as typed (split on ',' only)
     loc_cls = "%s:%d" % (cls.module.relpath, cls.node.lineno)
     # 1. block table
     try:
